@@ -124,10 +124,30 @@ theorem Arr.write_get (a : Arr Val) (i j : Idx) (v : Val) :
 
 theorem Arr.write_shape (a : Arr Val) (i : Idx) (v : Val) : (a.write i v).shape = a.shape := rfl
 
+/-- the private scalars of an iteration do not depend on an array their expressions do not read -/
+theorem bindLets_agree (y : String) (Γ : List (String × Int)) :
+    ∀ (lets : List (String × SExpr)) (σc σ : Store),
+      (∀ x, x ≠ y → σc.get? x = σ.get? x) → (∀ l ∈ lets, y ∉ readNames l.2) →
+      ∀ x, x ≠ y → (bindLets Γ lets σc).get? x = (bindLets Γ lets σ).get? x
+  | [], _, _, h, _ => h
+  | (t, e) :: rest, σc, σ, h, hr => by
+    simp only [bindLets]
+    have hv : eval { pt := [], ix := Γ, arr := σc } e = eval { pt := [], ix := Γ, arr := σ } e :=
+      eval_congr e { pt := [], ix := Γ, arr := σc } { pt := [], ix := Γ, arr := σ } rfl rfl
+        (fun x hx => h x (fun e' => hr (t, e) (by simp) (e' ▸ hx)))
+    rw [hv]
+    apply bindLets_agree y Γ rest
+    · intro x hx
+      rw [Store.get?_cons, Store.get?_cons]
+      by_cases htx : t = x
+      · rw [if_pos htx, if_pos htx]
+      · rw [if_neg htx, if_neg htx]; exact h x hx
+    · exact fun l hl => hr l (List.mem_cons_of_mem _ hl)
+
 /-- the points of a loop nest are executed one after the other: every point writes its own
-    element, computed in the store before the statement -/
+    element, computed — with the iteration's private scalars — in the store before the statement -/
 theorem foldl_execPoint_box (s : KStmt) (inames : List String) (σ : Store)
-    (hlets : s.lets = []) (hidx : s.lhsIdx = inameVars inames) (hnd : inames.Nodup)
+    (hlets : ∀ l ∈ s.lets, s.lhs ∉ readNames l.2) (hidx : s.lhsIdx = inameVars inames) (hnd : inames.Nodup)
     (hread : s.lhs ∉ readNames s.rhs) :
     ∀ (L : List (List (String × Int))) (σc : Store) (ac : Arr Val),
       (∀ Γ ∈ L, ∃ q, inames.length = q.length ∧ Γ = pointEnv inames q []) →
@@ -136,7 +156,8 @@ theorem foldl_execPoint_box (s : KStmt) (inames : List String) (σ : Store)
         (∀ x, x ≠ s.lhs → (L.foldl (execPoint s) σc).get? x = σ.get? x) ∧
         ∀ q, inames.length = q.length →
           (pointEnv inames q [] ∈ L →
-            b.get q = eval { pt := [], ix := pointEnv inames q [], arr := σ } s.rhs) ∧
+            b.get q = eval { pt := [], ix := pointEnv inames q [],
+                             arr := bindLets (pointEnv inames q []) s.lets σ } s.rhs) ∧
           (pointEnv inames q [] ∉ L → b.get q = ac.get q)
   | [], σc, ac, _, hσ, hac => by
     refine ⟨ac, hac, rfl, hσ, fun q _ => ⟨fun h => by simp at h, fun _ => rfl⟩⟩
@@ -144,24 +165,23 @@ theorem foldl_execPoint_box (s : KStmt) (inames : List String) (σ : Store)
     obtain ⟨q0, hq0, rfl⟩ := hL Γ0 (by simp)
     -- one point
     have hv : eval { pt := [], ix := pointEnv inames q0 [], arr := bindLets (pointEnv inames q0 []) s.lets σc } s.rhs
-        = eval { pt := [], ix := pointEnv inames q0 [], arr := σ } s.rhs := by
-      rw [hlets]
-      simp only [bindLets]
-      exact eval_congr s.rhs { pt := [], ix := pointEnv inames q0 [], arr := σc }
-        { pt := [], ix := pointEnv inames q0 [], arr := σ } rfl rfl
-        (fun x hx => hσ x (fun e => hread (e ▸ hx)))
+        = eval { pt := [], ix := pointEnv inames q0 [], arr := bindLets (pointEnv inames q0 []) s.lets σ } s.rhs := by
+      exact eval_congr s.rhs
+        { pt := [], ix := pointEnv inames q0 [], arr := bindLets (pointEnv inames q0 []) s.lets σc }
+        { pt := [], ix := pointEnv inames q0 [], arr := bindLets (pointEnv inames q0 []) s.lets σ } rfl rfl
+        (fun x hx => bindLets_agree s.lhs _ s.lets σc σ hσ hlets x (fun e => hread (e ▸ hx)))
     have hi : toNatIdx (evalList { pt := [], ix := pointEnv inames q0 [], arr := bindLets (pointEnv inames q0 []) s.lets σc } s.lhsIdx) = some q0 := by
       rw [hidx, evalList_inameVars _ inames q0 [] hnd hq0 [] (by simp), toNatIdx_idxVals]
     have hstep : execPoint s σc (pointEnv inames q0 []) =
-        σc.write s.lhs q0 (eval { pt := [], ix := pointEnv inames q0 [], arr := σ } s.rhs) := by
+        σc.write s.lhs q0 (eval { pt := [], ix := pointEnv inames q0 [], arr := bindLets (pointEnv inames q0 []) s.lets σ } s.rhs) := by
       unfold execPoint
       simp only [hi, hv]
     simp only [List.foldl_cons, hstep]
-    have hac' : (σc.write s.lhs q0 (eval { pt := [], ix := pointEnv inames q0 [], arr := σ } s.rhs)).get? s.lhs
-        = some (ac.write q0 (eval { pt := [], ix := pointEnv inames q0 [], arr := σ } s.rhs)) := by
+    have hac' : (σc.write s.lhs q0 (eval { pt := [], ix := pointEnv inames q0 [], arr := bindLets (pointEnv inames q0 []) s.lets σ } s.rhs)).get? s.lhs
+        = some (ac.write q0 (eval { pt := [], ix := pointEnv inames q0 [], arr := bindLets (pointEnv inames q0 []) s.lets σ } s.rhs)) := by
       rw [Store.get?_write_self, hac]; rfl
     have hσ' : ∀ x, x ≠ s.lhs →
-        (σc.write s.lhs q0 (eval { pt := [], ix := pointEnv inames q0 [], arr := σ } s.rhs)).get? x = σ.get? x := by
+        (σc.write s.lhs q0 (eval { pt := [], ix := pointEnv inames q0 [], arr := bindLets (pointEnv inames q0 []) s.lets σ } s.rhs)).get? x = σ.get? x := by
       intro x hx
       rw [Store.get?_write_ne _ _ _ _ _ hx]; exact hσ x hx
     obtain ⟨b, hb, hbs, hbσ, hbq⟩ := foldl_execPoint_box s inames σ hlets hidx hnd hread L _ _
@@ -181,28 +201,30 @@ theorem foldl_execPoint_box (s : KStmt) (inames : List String) (σ : Store)
         · rw [hout hmem, Arr.write_get, if_neg hqq]
 
 /-- **one generated store.**  With the box `inames × shape` (as many distinct inames as axes, no
-    empty axis) and a right-hand side that does not read the array it writes, the statement
-    replaces exactly the in-bounds elements of that array, each by the value of the right-hand
-    side at that point in the store before the statement; every other array is left alone. -/
-theorem execStmt_store (σ : Store) (id name : String) (inames : List String) (shape : Shape)
-    (rhs : SExpr) (deps : List String) (a : Arr Val)
+    empty axis), private scalars and a right-hand side that do not read the array the statement
+    writes, the statement replaces exactly the in-bounds elements of that array, each by the value
+    of the right-hand side at that point — with the iteration's private scalars — in the store before
+    the statement; every other array is left alone. -/
+theorem execStmt_storeL (σ : Store) (id name : String) (inames : List String) (shape : Shape)
+    (lets : List (String × SExpr)) (rhs : SExpr) (deps : List String) (a : Arr Val)
     (hne : isEmptyShape shape = false) (hlen : inames.length = shape.length) (hnd : inames.Nodup)
-    (ha : σ.get? name = some a) (hread : name ∉ readNames rhs) :
-    ∃ b, (execStmt σ (storeStmt id name inames shape [] rhs deps)).get? name = some b ∧ b.shape = a.shape ∧
-      (∀ x, x ≠ name → (execStmt σ (storeStmt id name inames shape [] rhs deps)).get? x = σ.get? x) ∧
+    (ha : σ.get? name = some a) (hread : name ∉ readNames rhs) (hlets : ∀ l ∈ lets, name ∉ readNames l.2) :
+    ∃ b, (execStmt σ (storeStmt id name inames shape lets rhs deps)).get? name = some b ∧ b.shape = a.shape ∧
+      (∀ x, x ≠ name → (execStmt σ (storeStmt id name inames shape lets rhs deps)).get? x = σ.get? x) ∧
       ∀ q, inames.length = q.length →
-        b.get q = if inB shape q = true then eval { pt := [], ix := pointEnv inames q [], arr := σ } rhs
+        b.get q = if inB shape q = true then
+                    eval { pt := [], ix := pointEnv inames q [], arr := bindLets (pointEnv inames q []) lets σ } rhs
                   else a.get q := by
-  have hs : storeStmt id name inames shape [] rhs deps =
-      { id := id, lhs := name, lhsIdx := inameVars inames, loops := box inames shape, lets := [], rhs := rhs,
+  have hs : storeStmt id name inames shape lets rhs deps =
+      { id := id, lhs := name, lhsIdx := inameVars inames, loops := box inames shape, lets := lets, rhs := rhs,
         deps := normDeps deps } := by
     unfold storeStmt; rw [hne]; rfl
   rw [hs]
   unfold execStmt
   simp only [Bool.false_eq_true, if_false, iterPoints_box σ inames shape [] hlen]
   obtain ⟨b, hb, hbs, hbσ, hbq⟩ := foldl_execPoint_box
-    { id := id, lhs := name, lhsIdx := inameVars inames, loops := box inames shape, lets := [], rhs := rhs,
-      deps := normDeps deps } inames σ rfl rfl hnd hread (boxPoints inames shape []) σ a
+    { id := id, lhs := name, lhsIdx := inameVars inames, loops := box inames shape, lets := lets, rhs := rhs,
+      deps := normDeps deps } inames σ hlets rfl hnd hread (boxPoints inames shape []) σ a
     (by
       intro Γ hΓ
       obtain ⟨q, hq, rfl⟩ := (mem_boxPoints inames shape [] Γ hlen).1 hΓ
@@ -219,6 +241,18 @@ theorem execStmt_store (σ : Store) (id name : String) (inames : List String) (s
     obtain ⟨q', hq', he⟩ := (mem_boxPoints inames shape [] _ hlen).1 hm
     have : q = q' := pointEnv_eq (σ := σ) hnd hq (by rw [hlen, inB_length hq']) he
     exact hB (this ▸ hq')
+
+/-- the same without private scalars -/
+theorem execStmt_store (σ : Store) (id name : String) (inames : List String) (shape : Shape)
+    (rhs : SExpr) (deps : List String) (a : Arr Val)
+    (hne : isEmptyShape shape = false) (hlen : inames.length = shape.length) (hnd : inames.Nodup)
+    (ha : σ.get? name = some a) (hread : name ∉ readNames rhs) :
+    ∃ b, (execStmt σ (storeStmt id name inames shape [] rhs deps)).get? name = some b ∧ b.shape = a.shape ∧
+      (∀ x, x ≠ name → (execStmt σ (storeStmt id name inames shape [] rhs deps)).get? x = σ.get? x) ∧
+      ∀ q, inames.length = q.length →
+        b.get q = if inB shape q = true then eval { pt := [], ix := pointEnv inames q [], arr := σ } rhs
+                  else a.get q :=
+  execStmt_storeL σ id name inames shape [] rhs deps a hne hlen hnd ha hread (by simp)
 
 end LG
 end Pt
